@@ -14,13 +14,16 @@ MatOf(sr, A, K) == [p \in Pairs(A) |->
 VecOf(sr, A, x) == [j \in Nodes(A) |->
     IF \E r \in DOMAIN x : x[r][1] = j THEN x[CHOOSE r \in DOMAIN x : x[r][1] = j][2] ELSE Zero(sr)]
 
+(* max-times with no edge above one: no cycle gains, the Kleene iteration stops after at most n rounds (and the     *)
+(* fixed-point equation alone would not do: over an idempotent semiring it has several solutions)                  *)
+NoGain(sr, A) == sr = "MaxTimes" /\ \A r \in DOMAIN A.edges : RLeq(A.edges[r][3], ROne)
 ClosureOK(e) ==
-  IF IsFinSR(e.sr) \/ GraphAcyclic(e.sr, e.A)
+  IF IsFinSR(e.sr) \/ GraphAcyclic(e.sr, e.A) \/ NoGain(e.sr, e.A)
   THEN MatOf(e.sr, e.A, e.K) = PathSum(e.sr, e.A)
   ELSE IsClosureFix(e.sr, e.A, MatOf(e.sr, e.A, e.K))      \* cyclic rationals: unique solution by substitution
 SolveOK(e) ==
   LET b == VecOf(e.sr, e.A, e.b)  x == VecOf(e.sr, e.A, e.x) IN
-  IF IsFinSR(e.sr) \/ GraphAcyclic(e.sr, e.A)
+  IF IsFinSR(e.sr) \/ GraphAcyclic(e.sr, e.A) \/ NoGain(e.sr, e.A)
   THEN x = (IF e.side = "left" THEN SolveLeft(e.sr, e.A, b) ELSE SolveRight(e.sr, e.A, b))
   ELSE x = (IF e.side = "left" THEN LStep(e.sr, e.A, b, x) ELSE RStep(e.sr, e.A, b, x))
 BlocksEvOK(e) == BlocksOK(e.sr, e.A, [k \in DOMAIN e.blocks |-> SetOf(e.blocks[k])])
